@@ -244,7 +244,17 @@ func (g *gen) step() {
 		if q > 0 {
 			pid = 1 + r.Intn(1000) // (a decoded QoS>0 PUBLISH with identifier 0 is not a valid packet)
 		}
-		g.evs = append(g.evs, hx.GB([]int64{6}, mq.Publish(nameVocab[r.Intn(len(nameVocab))], g.payload(), q, r.Chance(30), false, pid)))
+		t := nameVocab[r.Intn(len(nameVocab))]
+		if r.Bool() {
+			// built with the setters, as an application would: the identifier is assigned by the library
+			ret := int64(0)
+			if r.Chance(30) {
+				ret = 1
+			}
+			g.evs = append(g.evs, hx.GB([]int64{8, int64(q), ret, int64(len(t))}, append([]byte(t), g.payload()...)))
+		} else {
+			g.evs = append(g.evs, hx.GB([]int64{6}, mq.Publish(t, g.payload(), q, r.Chance(30), false, pid)))
+		}
 	default: // a second CONNECT, a CONNACK, a SUBACK from a client: ignored
 		b := [][]byte{mq.Connect(mq.ConnectOpts{ClientID: "zz", Clean: true, Flags: -1}), {0x20, 0x02, 0x00, 0x00}, {0x90, 0x03, 0x00, 0x01, 0x00}, {0xd0, 0x00}}[r.Intn(4)]
 		g.evs = append(g.evs, evBytes(c.id, b))
@@ -307,7 +317,7 @@ func corpus() [][]hx.Group {
 			cw(3, "cc", true, "will/c", 1, false), hx.G(7)},
 		// in-process subscriber and publisher
 		{hx.GB([]int64{4, 1000, 1}, []byte("a/#")), cn(1, "ca", true), sub(1, 1, []string{"a/b"}, []int{2}), pub(1, "a/b", "x", 2, true, 5), evBytes(1, mq.Ack(mq.PUBREL, 5)),
-			hx.GB([]int64{6}, mq.Publish("a/b", []byte("srv"), 1, true, false, 0)), hx.GB([]int64{4, 1001, 0}, []byte("#")), hx.GB([]int64{5, 1000}, []byte("a/#")), pub(1, "a", "y", 0, false, 0)},
+			hx.GB([]int64{8, 1, 1, 3}, []byte("a/bsrv")), hx.GB([]int64{4, 1001, 0}, []byte("#")), hx.GB([]int64{5, 1000}, []byte("a/#")), pub(1, "a", "y", 0, false, 0)},
 	}
 }
 
